@@ -436,6 +436,16 @@ class LoopTranslator:
                     cx.lets.append(f"let {nm} : {lean_ty(v.ty)} := {v.lean}")
                     cx.env[name] = Var(nm, v.ty, (ln,), v.width)
                     return True
+        # row of a 2-d array: x = a[key]
+        if isinstance(value, ast.Subscript) and isinstance(value.value, ast.Name) and value.value.id in cx.env \
+                and cx.env[value.value.id].ty.startswith("A2(") and not isinstance(value.slice, (ast.Tuple, ast.Slice)):
+            v = cx.env[value.value.id]
+            i0 = self.idx(cx, v, 0, value.slice)
+            nm = cx.fresh(name)
+            ety = v.ty[3:-1]
+            cx.lets.append(f"let {nm} : Int → {lean_ty(ety)} := fun c => {v.lean} {i0} c")
+            cx.env[name] = Var(nm, f"A({ety})", (v.lens[1],), v.width)
+            return True
         # a[:, ::-1]
         if isinstance(value, ast.Subscript) and isinstance(value.value, ast.Name) and isinstance(value.slice, ast.Tuple) \
                 and len(value.slice.elts) == 2 and ast.unparse(value.slice) in (":, ::-1", "(:, ::-1)") \
@@ -497,6 +507,31 @@ class LoopTranslator:
                 if isinstance(tgt, ast.Tuple):
                     if len(tgt.elts) != 2:
                         raise TranslateError(f"{self.fname}: tuple assignment of length {len(tgt.elts)}")
+                    if isinstance(s.value, ast.Call) and isinstance(s.value.func, ast.Name) and s.value.func.id in TRANSLATED:
+                        lean_fn, ptypes, rtypes = TRANSLATED[s.value.func.id]
+                        if len(rtypes) != 2 or s.value.keywords or len(s.value.args) != len(ptypes):
+                            raise TranslateError(f"{self.fname}: call shape of {s.value.func.id}")
+                        args = []
+                        for a, pt in zip(s.value.args, ptypes):
+                            if pt.startswith("A("):
+                                if not (isinstance(a, ast.Name) and a.id in cx.env and cx.env[a.id].ty == pt):
+                                    raise TranslateError(f"{self.fname}: array argument of {s.value.func.id}")
+                                av = cx.env[a.id]
+                                args += [av.lens[0], av.lean]
+                            else:
+                                x, xt = self.expr(cx, a)
+                                args.append(self.coerce(x, xt, pt))
+                        r = cx.fresh("r")
+                        cx.lets.append(f"let {r} : ({lean_ty(rtypes[0])} × {lean_ty(rtypes[1])}) × Bool := {lean_fn} k " + " ".join(args))
+                        self.set_err(cx, f"(!{r}.2)")
+                        for sub, proj, pt in ((tgt.elts[0], f"{r}.1.1", rtypes[0]), (tgt.elts[1], f"{r}.1.2", rtypes[1])):
+                            if isinstance(sub, ast.Subscript):
+                                self.assign_sub(cx, sub, proj, pt)
+                            elif isinstance(sub, ast.Name):
+                                self.assign_name(cx, sub.id, proj, pt)
+                            else:
+                                raise TranslateError(f"{self.fname}: tuple target")
+                        continue
                     v, t = self.expr(cx, s.value)
                     if t != "P":
                         raise TranslateError(f"{self.fname}: tuple assignment from {t}")
@@ -555,6 +590,9 @@ class LoopTranslator:
                 continue
             if isinstance(s, ast.For):
                 self.for_stmt(cx, s, in_loop)
+                continue
+            if isinstance(s, ast.While):
+                self.while_stmt(cx, s, in_loop)
                 continue
             raise TranslateError(f"{self.fname}: unsupported statement {type(s).__name__}")
         return None
@@ -721,7 +759,9 @@ class LoopTranslator:
         assigned = self.assigned_names(s.body)
         carried = [n for n in assigned if n in cx.env and n != s.target.id]
         has_ret = any(isinstance(m, ast.Return) for n in s.body for m in ast.walk(n))
-        has_raise = any(isinstance(m, (ast.Raise, ast.Assert)) for n in s.body for m in ast.walk(n))
+        has_raise = any(isinstance(m, (ast.Raise, ast.Assert, ast.While)) or
+                        (isinstance(m, ast.Call) and isinstance(m.func, ast.Name) and m.func.id in TRANSLATED)
+                        for n in s.body for m in ast.walk(n))
         fields = list(carried)
         if has_raise or outer_loop is not None and "err!" in outer_loop["fields"]:
             fields.append("err!")
@@ -832,6 +872,20 @@ class LoopTranslator:
         """for i, x in enumerate(a)            ->  for i in range(len(a)): x = a[i]
            for i, (k, x) in enumerate(zip(a, b)) ->  for i in range(min(len(a), len(b))): k = a[i]; x = b[i]"""
         it = s.iter
+        if isinstance(it, ast.Call) and isinstance(it.func, ast.Name) and it.func.id == "enumerate" and len(it.args) == 2 \
+                and not it.keywords and isinstance(it.args[0], ast.Subscript) and isinstance(it.args[0].value, ast.Name) \
+                and isinstance(it.args[0].slice, ast.Slice) and it.args[0].slice.upper is None and it.args[0].slice.step is None \
+                and it.args[0].slice.lower is not None and isinstance(s.target, ast.Tuple) and len(s.target.elts) == 2 \
+                and all(isinstance(t, ast.Name) for t in s.target.elts):
+            # for j, v in enumerate(a[lo:], start)  ->  for q in range(lo, len(a)): v = a[q]; j = start + (q - lo)
+            arr = it.args[0].value.id
+            lo, start = ast.unparse(it.args[0].slice.lower), ast.unparse(it.args[1])
+            jv, vv = s.target.elts[0].id, s.target.elts[1].id
+            q = cx.fresh("q").replace("'", "")
+            new = ast.parse(f"for {q} in range({lo}, len({arr})):\n    pass").body[0]
+            new.body = ast.parse(f"{vv} = {arr}[{q}]\n{jv} = ({start}) + ({q} - ({lo}))").body + s.body
+            new.orelse = []
+            return new
         if not (isinstance(it, ast.Call) and isinstance(it.func, ast.Name) and it.func.id == "enumerate"
                 and len(it.args) == 1 and not it.keywords and isinstance(s.target, ast.Tuple) and len(s.target.elts) == 2
                 and isinstance(s.target.elts[0], ast.Name)):
@@ -858,6 +912,28 @@ class LoopTranslator:
         new.body = ast.parse(pre).body + s.body
         new.orelse = []
         return new
+
+    def while_stmt(self, cx: Ctx, s: ast.While, outer_loop):
+        """`while C: B` with a declared iteration bound (WHILE_FUEL): a fold of `if C then B else id` over `range(fuel)`;
+        if C still holds afterwards the bound was too small and the error flag is set (the bridge proves it is not)"""
+        if s.orelse:
+            raise TranslateError(f"{self.fname}: while-else")
+        fuel_src = WHILE_FUEL.get(self.fname)
+        if fuel_src is None:
+            raise TranslateError(f"{self.fname}: while loop without a declared iteration bound")
+        if any(isinstance(m, (ast.Continue, ast.Break, ast.Return, ast.Raise, ast.Assert, ast.For, ast.While))
+               for n in s.body for m in ast.walk(n)):
+            raise TranslateError(f"{self.fname}: while body with control flow")
+        fuel_s, fuel_t = self.expr(cx, ast.parse(fuel_src, mode="eval").body)
+        if fuel_t != "Int":
+            raise TranslateError(f"{self.fname}: while bound is not an integer")
+        guarded = ast.If(test=s.test, body=s.body, orelse=[])
+        dummy = cx.fresh("w")
+        loop = ast.For(target=ast.Name(id=dummy, ctx=ast.Store()), iter=ast.parse(f"range({fuel_src})", mode="eval").body,
+                       body=[guarded], orelse=[])
+        ast.fix_missing_locations(loop)
+        self.for_stmt(cx, loop, outer_loop)
+        self.set_err(cx, f"(!{self.cond(cx, s.test)})")
 
     def _args_in_param_order(self, cx, captured, fields):
         args, seen_aux = [], set()
@@ -959,6 +1035,12 @@ def find_func(tree: ast.AST, name: str) -> ast.FunctionDef:
     raise TranslateError(f"function {name} not found")
 
 
+# functions already translated in this run: python name -> (lean name, parameter types, result types)
+TRANSLATED: dict = {}
+
+# declared iteration bounds of `while` loops (python expression over the function's variables)
+WHILE_FUEL = {"min_or_max_and_position": "len(arr)"}
+
 # function -> (module key, python name, declared parameter types)
 LOOPS = {
     "find_nth": ("numba", "_find_nth",
@@ -973,6 +1055,10 @@ LOOPS = {
                            "target": "A(Val)", "mask": "OptA(Bool)"}),
     "reduce_array_pair": ("numba", "reduce_array_pair",
                           {"x": "A(Val)", "y": "A(Val)", "reducer": "Red", "counts": "OptA(Int)", "y_counts": "OptA(Int)"}),
+    "min_or_max_and_position": ("numba", "min_or_max_and_position", {"arr": "A(Val)", "want_max": "Bool"}, "Val", ["Val", "Int"]),
+    "rolling_max_or_min": ("numba", "_rolling_max_or_min_1d",
+                           {"group_key": "A(Int)", "values": "LL(Val)", "ngroups": "Int", "window": "Int",
+                            "min_periods": "OptInt", "mask": "OptA(Bool)", "null_value": "Val", "want_max": "Bool"}),
     "rolling_shift_or_diff": ("numba", "_rolling_shift_or_diff_1d",
                               {"group_key": "A(Int)", "values": "LL(Val)", "ngroups": "Int", "window": "Int",
                                "mask": "OptA(Bool)", "null_value": "Val", "want_shift": "Bool"}),
@@ -1009,6 +1095,7 @@ def generate_loops(trees: dict[str, ast.AST], only=None) -> tuple[str, dict[str,
     """returns (Lean text, {function: error message}) - a function that cannot be translated is left out"""
     out = [PRELUDE]
     errors = {}
+    TRANSLATED.clear()
     for lean_name, spec in LOOPS.items():
         mod, pyname, params = spec[:3]
         float_ty = spec[3] if len(spec) > 3 else "Val"
@@ -1018,6 +1105,8 @@ def generate_loops(trees: dict[str, ast.AST], only=None) -> tuple[str, dict[str,
             fn = find_func(trees[mod], pyname)
             tr = LoopTranslator(lean_name, params, float_ty, module_int_constants(trees[mod]))
             out.append(f"/-! ### `{pyname}` -/\n\n" + tr.function(fn, lean_name) + "\n")
+            if len(spec) > 4:
+                TRANSLATED[pyname] = (lean_name, [t for t in params.values()], spec[4])
         except TranslateError as e:
             errors[lean_name] = str(e)
             out.append(f"-- TRANSLATE-ERROR {lean_name}: {e}\n\n")
